@@ -59,6 +59,7 @@ impl Engine for MigrEngine {
             sweeper: None,
             create_empty_file: false,
             allow_ambiguous: false,
+            ring: 0,
         };
         // workload used when the source image is produced by running the store in compatibility mode
         let mut ops = Vec::new();
